@@ -43,6 +43,32 @@ def main():
     if not tr["ok"]:
         notes.append("translator failed: " + tr["log"][-500:])
     frag_status = {k: v.get("status") for k, v in tr.get("fragments", {}).items()}
+    # tie B is an obligation of the properties that rest on a fragment: a fragment that can no longer be
+    # regenerated from the source (the translator fell back to the expected text), or whose lemmas
+    # (TieB.v, Accounting.v) no longer compile, breaks it
+    def frag_props(name):
+        if name.endswith(("_allow_put", "_put_room")):
+            return ("C01", "C04")
+        if name.endswith("_allow_get"):
+            return ("C02", "C04")
+        if name.endswith("_can_put"):
+            return ("C09", "C11")
+        if name.endswith(("_can_get", "_occupancy")):
+            return ("C11",)
+        if name == "round_robin_next":
+            return ("C15",)
+        if name.startswith("Machine_cond_"):
+            return ("C17",)
+        return ()
+    for k, v in tr.get("fragments", {}).items():
+        if v.get("status") != "ok" and pid in frag_props(k):
+            broken.append("tie B: %s could not be regenerated from %s (%s)" % (k, v.get("source"), v.get("why", "")[:160]))
+    for target, props in (("theories/Edges/TieB.vo", ("C01", "C02", "C04", "C09", "C11")),
+                          ("theories/Nodes/Accounting.vo", ("C15", "C17", "C18"))):
+        if pid in props:
+            okt, logt = lib.build_coq_target(target)
+            if not okt:
+                broken.append("tie B: the lemmas about the regenerated fragments do not compile: " + lib.first_error(logt))
     # ---- 2. proofs
     hyg = lib.hygiene()
     if hyg:
